@@ -12,6 +12,7 @@
 //        (fmodl (x, P) − r ∈ {0, ±P} in long double; all three numbers are floats of magnitude < 2P, the difference is exact);
 //        these two conditions determine r up to the choice between +π_f and −π_f.  Also the float neighbours of every
 //        multiple k·π_f, |k| ≤ 4096, are always included.  Prints one `AMALL …` summary line and up to 20 `AMALL-FAIL` lines.
+//   c11_corr anglemod-double-sweep <seed> <n> <kmax>   T = double, structured + random, exact range / half-float-ulp congruence (see below)
 #include <ImathEuler.h>
 #include <cstdio>
 #include <cstdlib>
@@ -162,6 +163,62 @@ int main (int argc, char** argv)
         printf ("AMALL evals=%llu nonfinite=%llu failures=%llu no_wrap=%llu plus_2pi=%llu minus_2pi=%llu result_at_pm_pi=%llu stride=%lu\n",
                 (unsigned long long) evals, (unsigned long long) nonfinite, (unsigned long long) bad, (unsigned long long) noWrap,
                 (unsigned long long) plus, (unsigned long long) minus, (unsigned long long) atPi, stride);
+        return bad ? 1 : 0;
+    }
+    if (mode == "anglemod-double-sweep")
+    {
+        // T = double, C++ side only (the Lean-model comparison tolerates one float ulp; this does not): for x = k·M_PI ± j ulps
+        // (|k| ≤ kmax, j ≤ 8), x = k·2·M_PI ± j ulps and n random doubles (±1e6, ±50, graded magnitudes): the returned float r
+        // must satisfy |r| ≤ float (M_PI) EXACTLY and be within HALF A FLOAT ULP (at r) of a value exactly congruent to x
+        // modulo 2·M_PI: fmodl (x, P) − r ∈ {0, ±P} ± ½ulp_f(r); fmodl is exact and the difference of a double and a float of
+        // magnitude < 2P is exact in long double.  I.e. r is a correctly rounded float of an exact representative.
+        unsigned long seed = strtoul (argv[2], 0, 10);
+        long          n    = atol (argv[3]);
+        long          kmax = argc > 4 ? atol (argv[4]) : 65536;
+        const float       pif = static_cast<float> (M_PI);
+        const long double P   = 2.0L * (long double) M_PI; // 2·M_PI is exact in double
+        unsigned long long evals = 0, bad = 0, noWrap = 0, plus = 0, minus = 0, atPi = 0, abovePiD = 0;
+        long double        worst = 0;
+        auto one = [&] (double x) {
+            if (!std::isfinite (x)) return;
+            float       r = Euler<double>::angleMod (x);
+            long double a = fmodl ((long double) x, P), d = a - (long double) r;
+            long double up = (long double) std::nextafter (r, INFINITY) - (long double) r, dn = (long double) r - (long double) std::nextafter (r, -INFINITY);
+            long double half = 0.5L * std::max (up, dn);
+            long double e0 = fabsl (d), e1 = fabsl (d - P), e2 = fabsl (d + P), e = std::min (e0, std::min (e1, e2));
+            ++evals;
+            if (e == e0) ++noWrap; else if (e == e2) ++plus; else ++minus;
+            if (std::fabs (r) == pif) ++atPi;
+            if (std::fabs ((double) r) > M_PI) ++abovePiD;
+            worst = std::max (worst, e / half);
+            if (!(std::fabs (r) <= pif && e <= half))
+            {
+                if (++bad <= 20) printf ("AMDBL-FAIL x_bits=%016llx x=%.17g r_bits=%08x r=%.9g off=%.6Lg half_ulp=%.6Lg\n", bitsOf (x), x, bitsOf (r), (double) r, e, half);
+            }
+        };
+        for (long k = -kmax; k <= kmax; ++k)
+            for (double base : {(double) k * M_PI, (double) k * (2 * M_PI)})
+            {
+                double lo = base, hi = base;
+                one (base);
+                for (int j = 0; j < 8; ++j) { lo = std::nextafter (lo, -INFINITY); hi = std::nextafter (hi, INFINITY); one (lo); one (hi); }
+            }
+        std::mt19937_64 g (seed * 0x9E3779B97F4A7C15ull + 77);
+        std::uniform_real_distribution<double> U (-1.0, 1.0);
+        for (long t = 0; t < n; ++t)
+        {
+            double x;
+            switch (t % 4)
+            {
+                case 0: x = U (g) * 1e6; break;
+                case 1: x = U (g) * 50; break;
+                case 2: x = U (g) * std::pow (10.0, (double) ((long) (g () % 30) - 12)); break;
+                default: x = (double) ((long) (g () % 2000001) - 1000000) * M_PI * (1 + U (g) * 1e-9); break;
+            }
+            one (x);
+        }
+        printf ("AMDBL evals=%llu failures=%llu no_wrap=%llu plus_2pi=%llu minus_2pi=%llu result_at_pm_pi_f=%llu result_above_double_pi=%llu worst_over_half_ulp=%.4Lf\n",
+                evals, bad, noWrap, plus, minus, atPi, abovePiD, worst);
         return bad ? 1 : 0;
     }
     fprintf (stderr, "usage: c11_corr order <lo> <hi> | anglemod <seed> <n> | anglemod-float-all <stride> <offset> <threads>\n");
